@@ -416,6 +416,7 @@ def fmtwidth(repo):
     tf = n.args[1]
     res.instances += 1
     stripped = set()
+    partial = []
     body = None
     if isinstance(tf, ast.Lambda):
         body = tf.body
@@ -429,6 +430,11 @@ def fmtwidth(repo):
         for x in ast.walk(root):
             if isinstance(x, ast.Call) and isinstance(x.func, ast.Attribute) and x.func.attr in ("rstrip", "strip") \
                     and ast.unparse(x.func.value).endswith(".text"):
+                # the renderer strips *all* trailing whitespace from a line (str.rstrip()); a strip limited to some characters
+                # (`rstrip(" ")`) leaves tabs etc. in the measured width
+                if x.args and not (isinstance(x.args[0], ast.Constant) and x.args[0].value is None):
+                    partial.append(ast.unparse(x))
+                    continue
                 # which classes does it apply to?  an enclosing `if <tok>.symbol in (...)` or unconditional
                 cond = None
                 for y in ast.walk(root):
@@ -439,7 +445,12 @@ def fmtwidth(repo):
                 else:
                     stripped |= {c.value for c in ast.walk(cond) if isinstance(c, ast.Constant) and isinstance(c.value, str)}
     missing = sorted(eol_classes - stripped)
-    if missing:
+    if partial:
+        res.add(f"{G.FORMAT_EMB}|{f.name}|token-text|partial-strip", f"{f.name} strips only some characters from the token text "
+                f"(`{partial[0]}`) while the renderer removes all trailing whitespace from a line: a doc that ends in a tab is "
+                "measured wider than it is rendered, and the second formatting pass moves the neighbouring comments",
+                G.FORMAT_EMB, n.lineno, f.name)
+    elif missing:
         res.add(f"{G.FORMAT_EMB}|{f.name}|token-text|{','.join(missing)}", f"{f.name} hands the text of {missing} tokens to the formatters with "
                 "their trailing blanks: widths of the doc/comment columns are measured with blanks that are later removed, so "
                 "formatting the output again moves the neighbouring rows' comments (not idempotent)", G.FORMAT_EMB, n.lineno, f.name)
